@@ -240,8 +240,11 @@ class C17(Prop):
 
     # ---- correspondence
     def gen_cases(self, rng, n):
-        from props import C18 as C18mod  # noqa: F401  (document generator lives in gen.metadata)
         for i in range(n):
+            if rng.random() < 0.04:
+                data, _ = G.raw_dict(rng)
+                yield ("meta.fields", [G.enc_dict(data)])
+                continue
             if rng.random() < 0.8:
                 data, plan = G.raw_dict(rng)
                 validate = rng.random() < 0.7
@@ -249,7 +252,11 @@ class C17(Prop):
                 yield ("meta.run", [G.oracle_table(data), G.enc_atoms(iteration_order(data)), core.encb(validate),
                                     G.enc_dict(data), G.enc_atoms(reads)])
             else:
-                doc = G.document(rng, wellformed=rng.random() < 0.7)
+                if rng.random() < 0.45:
+                    data, _ = G.raw_dict(rng)          # often completely valid: from_email succeeds
+                    doc = G.doc_from_raw(rng, data)
+                else:
+                    doc = G.document(rng, wellformed=rng.random() < 0.7)
                 validate = rng.random() < 0.75
                 args = self._email_args(doc, validate, None, rng)
                 if args is not None:
@@ -279,6 +286,9 @@ class C17(Prop):
             if G.oracle_table(data) != tab or G.enc_atoms(iteration_order(data)) != ks:
                 raise RuntimeError("stale oracle/order for this dict")
             return observe(lambda: M.Metadata.from_raw(data, validate=val == "1"), data, dec_atoms(reads))
+        if op == "meta.fields":
+            data = dec_dict(args[0])
+            return G.enc_atoms(sorted((frozenset(data) | M._REQUIRED_ATTRS) - {"metadata_version"})).replace("_", "")
         if op == "meta.email":
             doc = json.loads(core.dec(args[0]))
             val, reads = args[4], dec_atoms(args[7])
@@ -290,15 +300,32 @@ class C17(Prop):
         raise KeyError(op)
 
     def nontrivial(self, op, args, out):
-        return out.startswith("ok") or out.startswith("err")
+        return out.startswith("ok") or out.startswith("err") or op == "meta.fields"
 
     def branch(self, op, args, out):
+        if op == "meta.fields":
+            return "meta.fields"
         head = out.split(" ", 2)
         val = args[2] if op == "meta.run" else args[4]
         lab = op + (":validate" if val == "1" else ":lazy") + ":" + " ".join(head[:2] if head[0] != "ok" else head[:1])
         if head[0] == "err":
             n = len(head[2].split(",")) if len(head) > 2 and head[2] else 0
             lab += f":{min(n, 4)}{'+' if n >= 4 else ''}"
+            if op == "meta.run":
+                # why: M = version missing/invalid, U = unknown key, G = field newer than the version, V = invalid value
+                data = dec_dict(args[3])
+                mv = data.get("metadata_version")
+                mv_ok = isinstance(mv, str) and mv in G.SPEC_VERSIONS
+                why = "" if mv_ok else "M"
+                if any(k not in G.SPEC_FIELDS for k in data):
+                    why += "U"
+                if mv_ok and any(k in G.SPEC_FIELDS and G.age(G.SPEC_FIELDS[k][2]) > G.age(mv) for k in data):
+                    why += "G"
+                names = set(dec_atoms(head[2])) if len(head) > 2 else set()
+                if any(k in G.SPEC_FIELDS and G.email_name(k) in names and k != "metadata_version"
+                       and not (mv_ok and G.age(G.SPEC_FIELDS[k][2]) > G.age(mv)) for k in list(data) + ["name", "version"]):
+                    why += "V"
+                lab += ":" + why
         if head[0] == "ok":
             body = out[3:].split("|")[0]
             kinds = {r[0] for r in body.split(";") if r}
